@@ -21,7 +21,8 @@ RUNS = {"quick": 2500, "thorough": 500000}
 WALL_LIMIT = {"quick": 1200, "thorough": 5 * 3600}
 PROBES = ["duration_ends_exactly_on_timepoint", "duration_beyond_last_row", "duration_between_timepoints", "restart_of_open_process",
           "process_left_open", "delay_shifted_onset", "delay_shifted_duration", "delay_creates_new_timepoint", "equal_onset_rows",
-          "reorder_rejected", "reorder_equal_onsets_accepted", "context_nonempty_points", "unit_ms", "unit_minute"]
+          "reorder_rejected", "reorder_equal_onsets_accepted", "context_nonempty_points", "unit_ms", "unit_minute",
+          "type_filtered_view_then_reread", "na_onset_row_between_decreasing_onsets"]
 RULE = ("Each run generates a valid time-ordered history of 2-10 time points over 1-3 definition names (Onset/Offset pairs, "
         "restarts, processes left open, Duration groups ending before / exactly on / between / after time points and beyond the "
         "last row in s, ms and minute, Delay-shifted Onset and Duration groups, equal-onset rows, plain tags), builds the events "
@@ -58,7 +59,7 @@ def _init():
     return _W
 
 
-PLAIN = ["Green", "Circle", "Face", "Triangle", "Yellow", "Star", "Arrow"]
+PLAIN = ["Green", "Circle", "Face", "Triangle", "Yellow", "Star", "Arrow", "Task", "Condition-variable/Cond1"]
 INNER = ["Blue", "Cross", "Hand", "White"]
 KEYS = ["A", "B/3", "B/4", "Cee"]
 
@@ -320,6 +321,16 @@ def execute(sc, script=None):
         viol("no-exception", "EventManager on the valid time-ordered file %s raised %s" % (rows, obs), "raises-" + obs.split(":")[0])
         return _result(sc, violations, probes, trace, nontrivial)
     _compare(sc, rows, tps, points, procs, obs, viol, probe)
+    if any(("Task" in r[1] or "Condition-variable" in r[1]) for r in rows):
+        probe("type_filtered_view_then_reread")
+    if obs["hed_after_filtered_view"] != obs["hed"]:
+        k = [i for i, (a, b) in enumerate(zip(obs["hed"], obs["hed_after_filtered_view"])) if a != b][0]
+        viol("remainder", "after a type-filtered HedTagManager was built on the same EventManager, the remaining annotation of "
+             "entry %d reads %r (before: %r)" % (k, obs["hed_after_filtered_view"][k], obs["hed"][k]),
+             "remainder-changed-by-filtered-view")
+    elif obs["objs_again"] != obs["objs"]:
+        viol("remainder", "a second unfiltered HedTagManager on the same EventManager gives other objects than the first",
+             "second-view-differs")
     # ---- reordering fault
     for ps in sc.get("perms", []):
         if violations:
@@ -343,6 +354,20 @@ def execute(sc, script=None):
                      "equal-onset-permutation-rejected")
             else:
                 _compare(sc, prows, tps, points, procs, o2, viol, probe, tag="after permuting equal-onset rows: ")
+    # ---- a decrease hidden behind a row without onset: t[j], n/a, t[j-1] with t[j] > t[j-1] is still not non-decreasing
+    if not violations and len(rows) >= 2 and sc.get("perms"):
+        g = Gen(sc["perms"][0] ^ 0x5bd1)
+        cands = [j for j in range(1, len(rows)) if float(rows[j][0]) > float(rows[j - 1][0])]
+        if cands:
+            j = g.pick(cands)
+            prows = rows[:j - 1] + [rows[j], ["n/a", g.pick(["Green", "n/a"])], rows[j - 1]] + rows[j + 1:]
+            o3 = _run(W, prows)
+            probe("na_onset_row_between_decreasing_onsets")
+            trace.append(["na-between", j, o3 if isinstance(o3, str) else o3["digest"]])
+            if not (isinstance(o3, str) and o3.startswith("HedFileError")):
+                viol("reorder-rejected", "onsets %s (a decrease across a row without onset) but EventManager %s"
+                     % ([r[0] for r in prows], "accepted the file" if not isinstance(o3, str) else "raised " + o3),
+                     "unordered-file-accepted" if not isinstance(o3, str) else "unordered-file-raises-" + o3.split(":")[0])
     return _result(sc, violations, probes, trace, nontrivial)
 
 
@@ -356,6 +381,12 @@ def _run(W, rows):
         out = {"onsets": onsets, "base": list(em.base), "contexts": list(em.contexts), "hed": [str(h) for h in em.hed_strings],
                "events": [[(e.start_index, e.end_index) for e in evs] for evs in em.event_list],
                "objs": [str(o) if o is not None else "" for o in objs]}
+        # history on the same manager: a type-filtered view is built from it, then it is read again - the remaining
+        # annotation of every point is kept, and a second unfiltered view equals the first
+        tm2 = W["HedTagManager"](em, remove_types=["Condition-variable", "Task"])
+        tm2.get_hed_objs(include_context=True)
+        out["hed_after_filtered_view"] = [str(h) for h in em.hed_strings]
+        out["objs_again"] = [str(o) if o is not None else "" for o in W["HedTagManager"](em).get_hed_objs(include_context=True)]
         out["digest"] = core.digest(out)
         return out
     except W["HedFileError"] as e:
